@@ -485,3 +485,43 @@ def prewrite_sorts(ctx, repo):
 
 C01_EXTRA = [pair_exhaustive, f30_decode_types, woff_discriminator, prewrite_sorts]
 C02_EXTRA = [glyf_component]
+
+
+# classes whose two sides use different groupings/idioms but the same set of element codes (width+signedness)
+F1_LETTERS_EQUAL = {
+    "ttLib/tables/F__e_a_t.py": ["table_F__e_a_t"],
+    "ttLib/tables/S_V_G_.py": ["table_S_V_G_"],
+    "ttLib/tables/S__i_l_f.py": ["table_S__i_l_f", "Pass"],
+    "ttLib/tables/S__i_l_l.py": ["table_S__i_l_l"],
+    "ttLib/tables/_c_m_a_p.py": ["table__c_m_a_p", "cmap_format_2", "cmap_format_4", "cmap_format_6"],
+    "ttLib/tables/sbixStrike.py": ["Strike"],
+    "ttLib/woff2.py": ["WOFF2GlyfTable"],
+}
+
+
+def _letters(sigs):
+    out = set()
+    for s in sigs:
+        if s.startswith("ss:"):
+            for f in s[3:].split(","):
+                out.add(f.split(":")[1].split(".")[0][-1])
+        elif s.startswith("st:"):
+            out |= {c for c in s[3:] if c.isalpha()}
+        elif s.startswith("arr:"):
+            out.add(s[4:])
+    m = {"i": "l", "I": "L"}
+    return {m.get(c, c) for c in out if c not in "sxpc"}
+
+
+def f1_letters(ctx, repo):
+    ctx.rule("F1w", "for classes whose encoder and decoder group fields differently, the set of element codes (width and signedness) used on the two sides is equal (weaker than F1: a sign/width change is seen only if that code is not used elsewhere on the same side)", floor=10)
+    for rel, owners in sorted(F1_LETTERS_EQUAL.items()):
+        sigs = class_signatures(repo, repo.mod(rel))
+        for owner in owners:
+            d = sigs.get(owner)
+            if d is None or not d["W"] or not d["R"]:
+                raise AnalysisError(f"F1w instance {rel}:{owner} lost one of its sides")
+            lw, lr = _letters(d["W"]), _letters(d["R"])
+            unk = [s for s in d["W"] | d["R"] if "?" in s]
+            ok = lw == lr and not unk
+            ctx.ob("F1w", f"{rel}:{owner}", f"encode codes {sorted(lw)} == decode codes {sorted(lr)}", ok, "" if ok else f"codes differ (or a layout became dynamic: {unk[:1]})")
